@@ -84,6 +84,9 @@ func verifC12Kernels(which, n int) {
 		s7 := verifString("s7", n, "ax-.1")
 		_ = filterutil.IsDomainName(s7)
 		_ = filterutil.IsProbablyIP(s7)
+	case 8:
+		// the translation every Match starts with (also C03a, with the output checked)
+		_ = patternToRegexp(verifString("s9", n, "a.*^|/$\\"))
 	case 7:
 		s8 := verifString("s8", n, "/a.-|:h")
 		f := &NetworkRule{pattern: s8}
